@@ -151,6 +151,9 @@ func init() {
 			k.MaxScopes = 5
 			k.NoFaults, k.PFault, k.PErr = false, 10, 35
 			k.WCycleCloser = 1 // after a cycle-rejected registration the state must be intact
+			// decorators of keys that nothing provides: a decorator is no
+			// constructor, a required dependency on such a key is missing
+			k.PDecoOrphan = 12
 			return k
 		},
 		clauses: []string{CVerdictInvoke, CZeroAvailable, CZeroRequired, CNonZeroUnavail, CUnavailDirectRan, CRootCause},
